@@ -369,3 +369,34 @@ func c06redirect(c *core.Check) {
 			"a value is prefixed with '&' without the test "+pred.Name()+"(f.Type) that NeedRedirect applies: an optional enum field renders as &Color_X (address of a constant) or a reference to a struct constant as &NAME (pointer to pointer), and the generated package does not compile")
 	}
 }
+
+// c06quoteEscape: a literal reaches onStrBin with only its own delimiter unescaped, so a single quoted IDL literal can
+// still contain \" . Turning the text into a Go double quoted string must therefore leave already escaped quotes alone.
+// Rule: onStrBin does not escape quotes with a context-free strings.ReplaceAll / Replacer on the literal.
+func c06quoteEscape(c *core.Check) {
+	fd := c.Prog.FuncDecl(golangRel, "Resolver.onStrBin")
+	key := golangRel + ".(Resolver).onStrBin/quote-escape"
+	if fd == nil {
+		c.Unknown("anchor", key, "", "missing")
+		return
+	}
+	info := c.Prog.Pkg(golangRel).TypesInfo
+	bad := ""
+	handles := false
+	for _, call := range rules.Calls(fd.Body, true) {
+		fn := rules.Callee(info, call)
+		if fn == nil {
+			continue
+		}
+		if fn.Pkg() != nil && fn.Pkg().Path() == "strings" && (fn.Name() == "ReplaceAll" || fn.Name() == "Replace") && len(call.Args) >= 3 {
+			if a, ok := rules.ConstString(info, call.Args[1]); ok && a == "\"" {
+				bad = rules.ExprString(call)
+			}
+		}
+		if fn.Pkg() == c.Prog.Pkg(golangRel).Types && len(call.Args) == 1 && strings.Contains(strings.ToLower(fn.Name()), "quote") {
+			handles = true
+		}
+	}
+	c.Decide(bad == "" && handles, "quote-escape-respects-backslashes", key, c.Prog.Rel(fd.Pos()), "quotes are escaped by a helper that looks at preceding backslashes",
+		"the literal's double quotes are escaped by "+bad+" regardless of a backslash in front of them: the single quoted literal 'a\\\"b' becomes \"a\\\\\"b\", which ends the Go string early — the generated file does not parse")
+}
